@@ -23,7 +23,8 @@
 //!          -3 the operation (acquire_env / request_reload) ended in a panic, caught by the worker (a panicking creator or
 //!          callback, or lock().unwrap() on a mutex that an earlier panic poisoned),
 //!          otherwise acquire_env returned a guard: g = generation of the creator call that built the environment,
-//!          v = number of completed REQ_SET steps when its template "v" was (re)loaded, w = source version it shows.
+//!          v = number of completed REQ_SET steps when its template "v" was (re)loaded, w = source version it shows
+//!          (0 if template "m", which the loader knows from source version 1 on, cannot be found in it).
 //!
 //! While a thread is parked inside a callback the notifier mutex is held.  A thread parked before a
 //! notifier lock can then only be released *speculatively* (at most one at a time): the controller
@@ -185,7 +186,11 @@ fn observe(env: &Environment<'static>) -> (i64, i64, i64) {
         .and_then(|t| t.render(()))
         .unwrap_or_else(|_| "-7 -7 -7".into());
     let mut it = s.split_whitespace().map(|x| x.parse::<i64>().unwrap_or(-7));
-    (it.next().unwrap_or(-7), it.next().unwrap_or(-7), it.next().unwrap_or(-7))
+    let (g, v, w) = (it.next().unwrap_or(-7), it.next().unwrap_or(-7), it.next().unwrap_or(-7));
+    // template "m" exists from source version 1 on: an environment in which it cannot be found shows version 0
+    // (whenever "v" shows a version >= 1 the loader does know "m", so this changes nothing unless a lookup is stale)
+    let m_found = env.get_template("m").is_ok();
+    (g, v, if m_found { w } else { 0 })
 }
 
 /// kernel scheduling state of a thread of this process ('S' = sleeping, e.g. on a futex)
@@ -264,6 +269,10 @@ fn run_one(cfg: &Config, prefix: &[usize], rng: &mut Option<Rng>) -> RunResult {
                 let mut g = sh2.m.lock().unwrap();
                 g.loads += 1;
                 Ok(Some(format!("{{{{ g }}}} {} {}", g.reqs_done, g.src)))
+            } else if name == "m" {
+                // a template that does not exist before the first source change ("file created later")
+                let g = sh2.m.lock().unwrap();
+                Ok(if g.src >= 1 { Some("m".to_string()) } else { None })
             } else {
                 Ok(None)
             }
